@@ -215,6 +215,15 @@ def miri_run(ctx, key, sim_args, many_seeds=None, timeout=3600):
     return p.returncode, p.stdout, p.stderr
 
 
+def try_build(ctx, key):
+    """build(), but a configuration that does not compile yields None (the caller degrades and says so)."""
+    try:
+        return build(ctx, key)
+    except HarnessError as e:
+        ctx.log("WARNING: %s -- continuing with reduced coverage" % e)
+        return None
+
+
 def build_many(ctx, keys):
     keys = list(dict.fromkeys(keys))
     with ThreadPoolExecutor(max_workers=min(len(keys), 8)) as ex:
@@ -327,6 +336,9 @@ class Verdict:
         # evidence
         ev = self.evidence(len(new))
         json.dump(ev, open(os.path.join(ctx.verif, "evidence", self.pid + ".json"), "w"), indent=1)
+        # a copy per tier, so that the evidence of the last thorough run survives later quick runs
+        os.makedirs(os.path.join(ctx.verif, "evidence", "by-tier"), exist_ok=True)
+        json.dump(ev, open(os.path.join(ctx.verif, "evidence", "by-tier", "%s.%s.json" % (self.pid, self.tier)), "w"), indent=1)
         for path, v in new:
             print("VIOLATION property=%s replay=%s" % (self.pid, path), flush=True)
             print("  class=%s detail=%s" % (v["class"], v["detail"][:400]), flush=True)
@@ -666,12 +678,25 @@ def check_C07(ctx, tier, seed):
     matrix_keys = MATRIX_QUICK if quick else list(MATRIX.keys())
     # the hooked build takes part in the matrix, too: with the seam in place (simulated CPU = everything the host has)
     # results must equal those of the unhooked builds -- the instrumentation itself changes nothing
-    matrix_keys = matrix_keys + ["hooked"]
-    bins = build_many(ctx, ["hooked", "shuttle"] + matrix_keys)
+    with ThreadPoolExecutor(max_workers=2) as ex:
+        hooked_bin, shuttle_bin = ex.map(lambda k: try_build(ctx, k), ["hooked", "shuttle"])
+    if hooked_bin:
+        matrix_keys = matrix_keys + ["hooked"]
+    bins = build_many(ctx, matrix_keys)
+    degraded = []
     # (a) simulated-CPU sweep
-    sim_batch_procs(ctx, vd, "hooked", bins["hooked"], "c07cpu", 60_000 if quick else 6_000_000)
+    if hooked_bin:
+        sim_batch_procs(ctx, vd, "hooked", hooked_bin, "c07cpu", 60_000 if quick else 6_000_000)
+    else:
+        degraded.append("(a) simulated-CPU sweep skipped: the hooked build (--cfg fast_tlsh_verif) does not compile on this tree")
     # (b) first-call races under shuttle (random + PCT)
-    shuttle_runs(ctx, vd, bins["shuttle"], 2_000 if quick else 100_000, NCPU)
+    if shuttle_bin:
+        shuttle_runs(ctx, vd, shuttle_bin, 2_000 if quick else 100_000, NCPU)
+    else:
+        degraded.append("(b) shuttle races skipped: the shuttle build does not compile on this tree")
+    if degraded:
+        vd.extra["DEGRADED"] = degraded
+        print("NOTE: C07 ran with reduced coverage: %s" % "; ".join(degraded), flush=True)
     # (d) build matrix
     matrix_compare(ctx, vd, matrix_keys, 20_000 if quick else 400_000)
     if not quick:
@@ -858,8 +883,12 @@ def check_C17(ctx, tier, seed):
             sim_batch_procs(ctx, vd, cfg, bins[cfg], sc, n, abort_engine="asan" if cfg.startswith("asan") else "native-abort", env=env)
     # states only multi-GiB inputs reach (bucket counts up to and past 2^31 / 2^32): the C11 jump histories in the
     # debug-assertion + overflow-check build (hooked: state seam H3)
-    hb = build(ctx, "hooked_dbg")
-    sim_batch(ctx, vd, "hooked_dbg", hb, "c11", 15_000 * mult)
+    hb = try_build(ctx, "hooked_dbg")
+    if hb:
+        sim_batch(ctx, vd, "hooked_dbg", hb, "c11", 15_000 * mult)
+    else:
+        vd.extra["DEGRADED"] = ["the hooked build does not compile on this tree: multi-GiB states under overflow checks skipped"]
+        print("NOTE: C17 ran with reduced coverage: hooked build does not compile", flush=True)
     # Miri: a deterministic interpreter that reports UB; under feature `unsafe` every invariant!() is an
     # unreachable_unchecked, so a false invariant is reported as "entering unreachable code"
     miri_cfgs = ["miri_sse2", "miri_sse41", "miri_avx2", "miri_unsafe_sse2"] if quick else ["miri_sse2", "miri_sse41", "miri_avx2", "miri_unsafe_sse2", "miri_unsafe_sse41", "miri_unsafe_avx2"]
@@ -889,9 +918,36 @@ def check_C17(ctx, tier, seed):
     return vd.finish()
 
 
+def check_C11_unhooked(ctx, vd, tier, seed):
+    """Fallback when the state seam does not compile on the tree under test: no state injection is possible, so the
+    marks are reached with REAL streams only (slower, fewer histories), plus the model-vs-implementation runs."""
+    msg = "the hooked build (--cfg fast_tlsh_verif) does not compile on this tree: jump histories skipped, real streams only"
+    vd.extra["DEGRADED"] = [msg]
+    print("NOTE: C11 ran with reduced coverage: %s" % msg, flush=True)
+    bins = build_many(ctx, ["default", "dbg"])
+    import random
+    rnd = random.Random(seed)
+    jobs = [["bigstream", "--variant", v, "--pattern", "a40e" if v % 2 else "%02x" % rnd.getrandbits(8), "--seed", rnd.getrandbits(32)] for v in range(5)]
+    jobs.append(["bigstream", "--variant", seed % 5, "--pattern", "00", "--seed", 1, "--single-slice", (1 << 32) + 1000])
+    jobs.append(["bigstream", "--variant", (seed + 3) % 5, "--pattern", "00", "--seed", 1, "--single-slice", 4224281216])
+    with ThreadPoolExecutor(max_workers=8) as ex:
+        futs = [ex.submit(lambda a=a: run_sim(ctx, bins["default"], a)[1]) for a in jobs]
+        sim_batch(ctx, vd, "default", bins["default"], "c11small", 60_000, threads=8)
+        sim_batch(ctx, vd, "dbg", bins["dbg"], "c11small", 15_000, threads=8)
+        for f in futs:
+            vd.add("default", f.result())
+    vd.extra["components_real"] = ["Generator<T>::update / finalize_with_options / processed_len / clone on real multi-GiB streams"]
+    vd.extra["components_stub"] = ["reference model with frozen tables (oracle)"]
+    return vd.finish()
+
+
 def check_C11(ctx, tier, seed):
     vd = Verdict(ctx, "C11", tier, seed, "exploration")
-    bins = build_many(ctx, ["hooked", "hooked_dbg"])
+    with ThreadPoolExecutor(max_workers=2) as ex:
+        hb, hdb = ex.map(lambda k: try_build(ctx, k), ["hooked", "hooked_dbg"])
+    if not hb or not hdb:
+        return check_C11_unhooked(ctx, vd, tier, seed)
+    bins = {"hooked": hb, "hooked_dbg": hdb}
     n = 60_000 if tier == "quick" else 1_000_000
     # one REAL stream in every run, started first so that it overlaps with the batches: a single update() call with a
     # slice longer than u32::MAX (a lazily mapped zero buffer) -- the only way to reach the length conversion of one huge piece
